@@ -3,7 +3,7 @@ import itertools
 import vf
 
 ID = 'C10'
-FLAVORS = ['default', 'noinfo']
+FLAVORS = ['default', 'noinfo', 'strict']
 RULE = ('EQ histories over {push(code, text or none, explicit length or 0, allocation failure injected or not), pop, clear, count, SYST:ERR?} for capacities 1..4 (and 255, 256, 257, 300 filled beyond capacity; texts ending in CR / LF): '
         'every sequence up to length 4 (quick) / 6 (thorough) over a 9-letter alphabet, plus random histories of up to 60 (quick) / 2000 (thorough) operations; malloc and no-info builds; '
         'LeakSanitizer is on, so a text that is never released fails the run. Non-trivial: a history that overflows or returns a text; distinct = distinct lines.')
@@ -120,5 +120,8 @@ def streams(tier, rng):
             for ln in (0, len(t)):
                 for rd in ('O', 'S'):
                     cases.append('|'.join(['EQ 4 64', 'P -100 %s %d 0' % (t.hex(), ln), 'N', rd, 'N']))
+        if flavor == 'strict':
+            # strict ISO C build: the library duplicates texts with its own strndup, which the allocation-failure injection does not reach
+            cases = [c for c in cases if not any(p.startswith('P ') and p.endswith(' 1') for p in c.split('|'))][::3]
         yield {'name': 'histories-' + flavor, 'flavor': flavor, 'cases': cases, 'oracle': oracle_for(flavor == 'noinfo'),
                'nontrivial': lambda c, o: c if ('o-350' in o or ':' in o) else None}
